@@ -160,5 +160,9 @@ def obligations(tier):
                       budget=900, bounds='n=%d, 2 apply steps' % n, kinds=KINDS))
         obs.append(Ob('iter/b2/n%d' % n, h_iter, dict(n=n, k=2), need=('iterated',), budget=600,
                       bounds='n=%d, 2 apply steps' % n, kinds=KINDS))
+    if tier == 'quick':
+        for s1 in (0, 2):
+            obs.append(Ob('slice/b2nt/n3/s%d' % s1, h_slice, dict(n=3, k=2, s1=s1, r1=2, t2=False), need=('nonempty-slice',), budget=900,
+                          bounds='n=3, first setting on the whole text, second step not topmost', kinds=KINDS))
     obs.append(Ob('step', h_step, dict(n=3), need=('step-rejected', 'step-1'), budget=60, bounds='all integer steps', kinds=KINDS))
     return obs
